@@ -68,6 +68,9 @@ type timer struct {
 
 	// timer is the runtime timer used to wait on.
 	timer *time.Timer
+
+	// verification hook state (empty unless built with the verif tag)
+	timerVerif
 }
 
 // init initializes the timer. Once it expires, it the given waker will be
@@ -130,6 +133,7 @@ func (t *timer) enabled() bool {
 
 // enable enables the timer, programming the runtime timer if necessary.
 func (t *timer) enable(d time.Duration) {
+	d = t.verifArm(d)
 	t.target = time.Now().Add(d)
 
 	// Check if we need to set the runtime timer.
